@@ -928,7 +928,15 @@ func c10Matcher(c *Ctx, a *clientAnchors) {
 		return
 	}
 	st := stores[0]
-	r.Check(st.Val == ssa.Value(pkt), "C10-K4", key("response is the packet received from the transaction channel"), c.P.ipos(st), "value identity", "the stored response is "+sx.Of(st.Val).String()+", not the packet received in this select")
+	// the response and the error may leave the wait loop together through a join (`response, err = r0, r1` after a loop
+	// whose exits set r0, r1): the stored value is then a φ paired edge by edge with the φ of the returned error
+	pairPhi, _ := st.Val.(*ssa.Phi)
+	if pairPhi != nil && pairPhi.Block() != st.Block() {
+		pairPhi = nil
+	}
+	if pairPhi == nil {
+		r.Check(st.Val == ssa.Value(pkt), "C10-K4", key("response is the packet received from the transaction channel"), c.P.ipos(st), "value identity", "the stored response is "+sx.Of(st.Val).String()+", not the packet received in this select")
+	}
 	// match condition
 	var nilT, callT Edge
 	haveNil, haveCall := false, false
@@ -958,6 +966,44 @@ func c10Matcher(c *Ctx, a *clientAnchors) {
 	edges := []Edge{callT}
 	if haveNil {
 		edges = append(edges, nilT)
+	}
+	if pairPhi != nil {
+		var errPhi *ssa.Phi
+		for _, in := range st.Block().Instrs {
+			if ph, ok := in.(*ssa.Phi); ok && isErrorType(ph.Type()) && len(ph.Edges) == len(pairPhi.Edges) {
+				errPhi = ph
+			}
+		}
+		returned := false
+		if errPhi != nil {
+			for _, ret := range returnsOf(fn) {
+				if len(ret.Results) == 1 && (ret.Results[0] == ssa.Value(errPhi) || retResult(ret, 0) == ssa.Value(errPhi)) {
+					returned = true
+				}
+			}
+		}
+		if errPhi == nil || !returned {
+			r.Undecided("C10-K4", key("response store"), c.P.ipos(st), "the response leaves the wait loop through a join, but the error returned with it is not the φ of the same join")
+			return
+		}
+		nPkt := 0
+		for k, e := range pairPhi.Edges {
+			pred := st.Block().Preds[k]
+			errNil := isNilConst(errPhi.Edges[k])
+			switch {
+			case e == ssa.Value(pkt):
+				nPkt++
+				r.Check(mustPassEdges(fn, pred, edges...), "C10-K4", key("response stored only under match==nil or match(packet)"), c.P.ipos(st), "the exit that carries the packet is unreachable without {match==nil, match(packet)==true}",
+					"a packet the matcher rejected can be returned")
+				r.Check(errNil, "C10-K4", key("an accepted packet is returned as success"), c.P.ipos(st), "paired error is nil", "the accepted packet leaves the wait loop together with an error")
+			case isNilConst(e):
+				r.Check(!errNil, "C10-K4", key("success is returned only together with a response"), c.P.ipos(st), "an exit without a packet carries an error", "the try can succeed without an accepted packet")
+			default:
+				r.Violation("C10-K4", key("response is the packet received from the transaction channel"), c.P.ipos(st), "the stored response is "+sx.Of(e).String()+" on one exit of the wait loop, not the packet received in this select")
+			}
+		}
+		r.Check(nPkt >= 1, "C10-K4", key("response is the packet received from the transaction channel"), c.P.ipos(st), "one exit carries the packet", "no exit of the wait loop carries the packet received in this select")
+		return
 	}
 	r.Check(mustPassEdges(fn, st.Block(), edges...), "C10-K4", key("response stored only under match==nil or match(packet)"), c.P.ipos(st), "store unreachable without {match==nil, match(packet)==true}",
 		"a packet the matcher rejected can be returned")
